@@ -765,9 +765,10 @@ class SumGrader(SummationGraderBase):
                                  'to complex numbers.')
 
         # Check to ensure that sum limits are integers or infinite
-        if abs(lower) != float('inf') and int(lower) != lower:
+        # (a blank limit evaluates to nan, which is not equal to itself and which int() cannot convert)
+        if abs(lower) != float('inf') and (lower != lower or int(lower) != lower):
             raise SummationError('Lower summation limit does not evaluate to an integer.')
-        if abs(upper) != float('inf') and int(upper) != upper:
+        if abs(upper) != float('inf') and (upper != upper or int(upper) != upper):
             raise SummationError('Upper summation limit does not evaluate to an integer.')
 
         def eval_summand(x):
